@@ -128,6 +128,7 @@ func (ex *Exec) check(st *State, goal *Term, kind string, n ast.Node, site strin
 	if len(ex.frames) > 1 && ex.frame().fn != nil && ex.frame().fn != ex.top {
 		inl = "<" + ex.frame().fn.Short + ">"
 	}
+	goal = ex.simplifyGoal(st, goal)
 	key := kind + "@" + inl + site
 	ex.siteSeen[key]++
 	name := fmt.Sprintf("%s/%s", ex.top.Short, key)
@@ -139,6 +140,15 @@ func (ex *Exec) check(st *State, goal *Term, kind string, n ast.Node, site strin
 		o.Status = "trivial"
 	}
 	ex.obls = append(ex.obls, o)
+	if _, _, fp, _ := featureScan([]*Term{goal}); fp && !strings.HasPrefix(kind, "loop") {
+		// redundant once proved; the portfolio may leave such float lemmas out of later queries
+		defFacts[goal] = true
+		if goal.Op == "and" {
+			for _, a := range goal.Args {
+				defFacts[a] = true
+			}
+		}
+	}
 	st.assume(goal)
 }
 
@@ -297,7 +307,7 @@ func (ex *Exec) execAssign(s *ast.AssignStmt, st *State) {
 	for i, t := range tgts {
 		switch {
 		case t.obj != nil:
-			st.env[t.obj] = ex.convertTo(vals[i], t.obj.Type(), st)
+			st.env[t.obj] = ex.nameFloat(ex.convertTo(vals[i], t.obj.Type(), st), t.obj.Name(), st)
 		case t.lv != nil:
 			ex.assign(t.lv, ex.convertTo(vals[i], t.lv.typ(), st), st, s)
 		}
@@ -576,10 +586,11 @@ type writes struct {
 	globs map[string]types.Type
 	fams  map[string]bool
 	all   bool
+	calls map[string]bool // ghost call counters (interface methods with contracts) possibly advanced
 }
 
 func newWrites() *writes {
-	return &writes{vars: map[types.Object]bool{}, globs: map[string]types.Type{}, fams: map[string]bool{}}
+	return &writes{vars: map[types.Object]bool{}, globs: map[string]types.Type{}, fams: map[string]bool{}, calls: map[string]bool{}}
 }
 
 func (ex *Exec) havocWrites(w *writes, st *State, onlyOuter bool) {
@@ -597,6 +608,10 @@ func (ex *Exec) havocWrites(w *writes, st *State, onlyOuter bool) {
 	}
 	for f := range w.fams {
 		st.havocFamily(f)
+	}
+	for name := range w.calls {
+		// this ghost call counter may have advanced
+		st.ghost["calls:"+name] = scalarV(types.Typ[types.Int], freshVar("ghost|calls:"+name, sortInt))
 	}
 	if len(w.fams) > 0 {
 		// allocation may have happened
@@ -1186,6 +1201,13 @@ func (ex *Exec) scanCall(call *ast.CallExpr, info *types.Info, w *writes, depth 
 		return
 	}
 	key := funcKey(fn)
+	if ifi := ex.vc.ifaceFuncs[key]; ifi != nil {
+		w.calls[ifaceCounterName(ifi)] = true
+		for _, m := range ifi.Con.Modifies {
+			ex.famsForModifies(ifi, m, w)
+		}
+		return
+	}
 	if fi := ex.vc.funcs[key]; fi != nil {
 		if fi.Con != nil && !fi.Con.Inline {
 			for _, m := range fi.Con.Modifies {
@@ -1201,6 +1223,9 @@ func (ex *Exec) scanCall(call *ast.CallExpr, info *types.Info, w *writes, depth 
 			}
 			for g, t := range sub.globs {
 				w.globs[g] = t
+			}
+			for c := range sub.calls {
+				w.calls[c] = true
 			}
 			// callee locals are irrelevant; pointer-receiver/pointer params targeting caller locals:
 			for _, a := range call.Args {
@@ -1374,4 +1399,49 @@ func (ex *Exec) counterInvariant(s *ast.ForStmt, st *State, w *writes) func(*Sta
 		i := x.env[obj].scalar()
 		return []*Term{mkImplies(mkCmp("le", a, b), mkAnd(mkCmp("le", a, i), mkCmp("le", i, b)))}
 	}
+}
+
+// definitional equations of float-valued locals: v == <float expression>. They are ordinary facts, but the
+// portfolio may drop them (an opaque v is often all a proof needs, and float multipliers are expensive to bit-blast).
+var defFacts = map[*Term]bool{}
+
+func (ex *Exec) nameFloat(v Value, name string, st *State) Value {
+	if ex.spec > 0 || len(v.L) != 1 {
+		return v
+	}
+	t, ok := v.L[""]
+	if !ok || t.Sort.K != SFP || t.Op == "var" || t.Op == "const" {
+		return v
+	}
+	nv := freshVar(name, sortFP)
+	eq := mk("=", sortBool, nv, t)
+	defFacts[eq] = true
+	st.assume(eq)
+	return scalarV(v.T, nv)
+}
+
+// simplifyGoal uses the unit literals of the path condition, and the antecedents of an implication goal, to resolve
+// conditions inside the goal (e.g. ite terms produced by merges).
+func (ex *Exec) simplifyGoal(st *State, goal *Term) *Term {
+	lits := map[*Term]bool{}
+	unitLits(st.pc, lits)
+	g := simplifyUnder(goal, lits)
+	return simplifyImpl(g)
+}
+
+func simplifyImpl(g *Term) *Term {
+	if g.Op == "=>" {
+		l2 := map[*Term]bool{}
+		unitLits([]*Term{g.Args[0]}, l2)
+		c := simplifyImpl(simplifyUnder(g.Args[1], l2))
+		return mkImplies(g.Args[0], c)
+	}
+	if g.Op == "and" {
+		args := make([]*Term, len(g.Args))
+		for i, a := range g.Args {
+			args[i] = simplifyImpl(a)
+		}
+		return mkAnd(args...)
+	}
+	return g
 }
